@@ -419,7 +419,7 @@ def r11_5(ctx: Ctx, rule="R11.5"):
            node=guards[0] if guards else init.node)
     # the comparison itself
     p_top, p_res = chk.params[:2]
-    cnt_ = pfind(chk.node, "if len(%s) != sum((len(V_r) for V_r in %s)):\n    return False" % (p_top, p_res))
+    cnt_ = pfind(chk.node, "if len(%s) != sum((len(V_r) for V_r in %s)):\n    return False\nelse:\n    ..." % (p_top, p_res))
     outer = pfind(chk.node, "for V_res in %s: ..." % p_res)
     okc, inc_ok = bool(cnt_), False
     if outer:
@@ -429,11 +429,15 @@ def r11_5(ctx: Ctx, rule="R11.5"):
             tops = pfind(inner[0][0], "V_at = %s[V_idx]" % p_top)
             if tops:
                 tv, iv = tops[0][1]["V_at"], tops[0][1]["V_idx"]
-                cmp_ = pfind(inner[0][0], "if %s.resname != %s.resname or %s.name != %s.name:\n    return False" % (av, tv, av, tv))
+                cmp_ = pfind(inner[0][0], "if %s.resname != %s.resname or %s.name != %s.name:\n    return False\nelse:\n    ..." % (av, tv, av, tv))
                 okc = okc and bool(cmp_)
-                incs = [s_ for s_ in inner[0][0].body if isinstance(s_, ast.AugAssign) and norm(s_.target) == iv
-                        and const_int(s_.value) == 1 and isinstance(s_.op, ast.Add)]
-                inc_ok = len(incs) == 1 and inner[0][0].body[-1] is incs[0] and phas(chk.node, "%s = 0" % iv)
+                # on every path that goes on to the next atom the running index advances by one, as the last action
+                from ..cfg import enum_paths as _ep
+                falls = [p_ for p_ in _ep(inner[0][0].body) if p_.end in ("fall", "continue")]
+                def _is_inc(s_):
+                    return isinstance(s_, ast.AugAssign) and norm(s_.target) == iv and const_int(s_.value) == 1 and isinstance(s_.op, ast.Add)
+                inc_ok = bool(falls) and all(len([s_ for s_ in p_.stmts() if _is_inc(s_)]) == 1 and _is_inc(p_.stmts()[-1]) for p_ in falls) \
+                    and phas(chk.node, "%s = 0" % iv)
             else:
                 okc = False
         else:
